@@ -1547,10 +1547,10 @@ impl Cpu {
                 let result = match self.ir.operands[0].data_type() {
                     Data::Word => (a as i32 >> b as i32) as u32,
                     Data::UWord => a >> b,
-                    Data::Half => (a as i16 >> b as i16) as u32,
-                    Data::UHalf => u32::from(a as u16 >> b as u16),
-                    Data::Byte => u32::from(a as u8 >> b as u8),
-                    Data::SByte => (a as i8 >> b as i8) as u32,
+                    Data::Half => (i32::from(a as i16) >> b) as u32,
+                    Data::UHalf => u32::from(a as u16) >> b,
+                    Data::Byte => u32::from(a as u8) >> b,
+                    Data::SByte => (i32::from(a as i8) >> b) as u32,
                     _ => 0,
                 };
                 self.write_op(bus, 2, result)?;
